@@ -5,6 +5,10 @@ proof gate (coq/Props/C04.v: kernel_cy = kernel_py for the kernels whose algorit
 + differential runs of identical serialised programs / helper calls / tiny algorithm runs in the two
   configurations (py: TENPY_NO_CYTHON=1 from the current tree; cy: extension rebuilt from the current .pyx)
 + a dense numpy oracle that says which side is wrong.
+Hidden aliasing is an observable too (a sum that shares a block with its operand is right by value until a LATER in-place
+operation): after every step both configurations record which pairs of live tensors share block memory and which other live
+tensors changed; both relations are diffed (pairs inside a documented shallow-copy class excepted), and the stream
+'inplace-chains' continues binary operations on operands of different block sparsity with in-place operations.
 """
 import json
 import os
@@ -89,11 +93,48 @@ def obs_diff(a, b, path=''):
     return [] if a == b else [path]
 
 
-def step_diff(p, y):
-    """differences between the records of one step in the two configurations"""
+# operations DOCUMENTED to return a (possibly) shallow copy: the result may share its block buffers with the operand, and the
+# effect of a later in-place operation on the other reference is documented as unspecified (Array.copy, sort_legcharge).
+# Only for such pairs a difference of the memory-sharing relation between the configurations is not a violation.
+SHALLOW_DOC = ('copy_shallow', 'sort_legcharge')
+
+
+def doc_alias_classes(steps):
+    """register -> representative of its class of documented shallow copies (union over SHALLOW_DOC steps)"""
+    rep = list(range(len(steps)))
+    for i, st in enumerate(steps):
+        if st['op'] in SHALLOW_DOC and isinstance(st.get('a'), int) and st['a'] < i:
+            rep[i] = rep[st['a']]
+    return rep
+
+
+def undocumented(rec, rep):
+    """the aliasing observables of a step record without the pairs / side effects inside one documented shallow-copy class"""
+    if rep is None or not any(k in rec for k in ALIAS_KEYS):
+        return rec
+
+    def cls(i):
+        return rep[i] if i < len(rep) else i
+    rec = dict(rec)
+    if 'shares' in rec:
+        rec['shares'] = [x for x in rec['shares'] if cls(x[0]) != cls(x[1])]
+    tgt = rec.get('target')
+    if tgt is not None and 'changed' in rec:
+        rec['changed'] = [i for i in rec['changed'] if cls(i) != cls(tgt)]
+        if 'side_effects' in rec:
+            rec['side_effects'] = {k: v for k, v in rec['side_effects'].items() if cls(int(k)) != cls(tgt)}
+            if not rec['side_effects']:
+                del rec['side_effects']
+    return rec
+
+
+def step_diff(p, y, rep=None):
+    """differences between the records of one step in the two configurations (rep: see doc_alias_classes)"""
     out = []
+    p, y = undocumented(p, rep), undocumented(y, rep)
     if p.get('res') == y.get('res') and p.get('recv') == y.get('recv') and p.get('error') == y.get('error') \
-            and p.get('skipped') == y.get('skipped') and 'crash' not in p and 'crash' not in y:
+            and p.get('skipped') == y.get('skipped') and 'crash' not in p and 'crash' not in y \
+            and all(p.get(k) == y.get(k) for k in ALIAS_KEYS):
         return out
     if ('crash' in p) != ('crash' in y):
         return ['crash']
@@ -107,7 +148,38 @@ def step_diff(p, y):
                 out.append(k + '-missing')
         elif k in p:
             out.extend(obs_diff(p[k], y[k], k))
+    # observables beyond the result (hidden aliasing shows only at a LATER in-place operation):
+    # which pairs of live tensors share block memory, which other live tensors changed their value during the step
+    if p.get('shares') != y.get('shares'):
+        out.append('shares')
+    if p.get('changed') != y.get('changed'):
+        out.append('changed')
+    elif p.get('side_effects') != y.get('side_effects'):
+        out.extend(obs_diff(p.get('side_effects') or {}, y.get('side_effects') or {}, 'side_effects'))
+    if p.get('alias_err') != y.get('alias_err'):
+        out.append('alias_err')
     return out
+
+
+ALIAS_KEYS = ('shares', 'changed', 'side_effects', 'alias_err')
+
+
+def alias_only(diffs):
+    return bool(diffs) and all(d in ('shares', 'changed', 'alias_err') or d.startswith('side_effects') for d in diffs)
+
+
+def alias_detail(p, y):
+    """what differs in the aliasing observables of one step, in words"""
+    out = []
+    sp, sy = [tuple(x) for x in p.get('shares') or []], [tuple(x) for x in y.get('shares') or []]
+    if sp != sy:
+        out.append('pairs of live tensors (register numbers) sharing block memory: only in pure Python %s, only compiled %s' % (
+            sorted(set(sp) - set(sy)), sorted(set(sy) - set(sp))))
+    if p.get('changed') != y.get('changed'):
+        out.append('live tensors whose value changed during the step: pure Python %s, compiled %s' % (p.get('changed'), y.get('changed')))
+    elif p.get('side_effects') != y.get('side_effects'):
+        out.append('tensors %s changed by the step hold different values in the two configurations' % sorted(p.get('side_effects') or {}))
+    return '; '.join(out)
 
 
 def classify(st, p, y, diffs):
@@ -117,6 +189,9 @@ def classify(st, p, y, diffs):
     A, B = pre.get('a'), pre.get('b')
     zero_size = any(x and x.get('zero_size') for x in (A, B))
     only_dtype = diffs and all(d.endswith('/dtype') or d.endswith('/block-dtypes') for d in diffs)
+    if alias_only(diffs):
+        # the results agree; the configurations differ in which tensors share memory / were changed as a side effect
+        return 'C04:%s:hidden-aliasing:%s' % (op, ','.join(sorted(set(d.split('/')[0].split('[')[0] for d in diffs))))
     if only_dtype and op in ADD_OPS + SCALE_OPS and ((A and A['nblocks'] == 0) or (B and B['nblocks'] == 0)):
         return 'C04:py:dtype-not-promoted:operand-without-blocks'
     if op in ADD_OPS and A and B and A['labels'] != B['labels'] and None not in A['labels'] and \
@@ -138,6 +213,8 @@ def classify(st, p, y, diffs):
 
 def blame(p, y):
     a, b = p.get('dense_ok'), y.get('dense_ok')
+    if all(p.get(k) == y.get(k) for k in ('res', 'recv', 'error', 'skipped')) and 'crash' not in p and 'crash' not in y:
+        return 'same result, different aliasing/side effects: ' + alias_detail(p, y)
     if 'crash' in y:
         return 'the compiled configuration crashed the interpreter (signal %s)' % y['crash']
     if 'crash' in p:
@@ -218,12 +295,20 @@ def compare_programs(ctx, stream, cases, out):
             nd += 1
             continue
         first = None
+        rep = doc_alias_classes(c['steps'])
         for si, (st, a, b) in enumerate(zip(c['steps'], p['steps'], y['steps'])):
             k = st['op'] + ('!' if 'error' in a else '')
             opstat[k] = opstat.get(k, 0) + 1
-            d = step_diff(a, b)
+            d = step_diff(a, b, rep)
+            if d == ['shares'] and first is None:
+                # same results, but different tensors share memory: keep looking for the step where this becomes a
+                # difference of values (reported instead, it is the more telling input); else this step is reported
+                first = (si, st, undocumented(a, rep), undocumented(b, rep), d)
+                continue
+            if d == ['shares']:
+                continue
             if d:
-                first = (si, st, a, b, d)
+                first = (si, st, undocumented(a, rep), undocumented(b, rep), d)
                 break
         if first is None and len(p['steps']) == len(y['steps']):
             fd = [] if p['final'] == y['final'] else obs_diff(p['final'], y['final'], 'final')
@@ -348,6 +433,61 @@ def gen_merge_cases(rng, n):
             continue
         cases.append({'f': 'merge', 'mods': mods, 'pool': pool, 'a': a, 'b': b, 'raw': rng.random() < 0.25})
     return cases
+
+
+CHAIN_PREF = [1.0, 1.0, 1, -1.0, 2.0, ['c', 0.0, 1.0]]
+CHAIN_SCALE = [2.0, 2.0, -1.0, ['c', 0.0, 1.0], 1.0, 0.5, 3, -2]
+
+
+def gen_inplace_chain(rng):
+    """histories of binary operations followed by in-place operations: 2-4 operands with the SAME legs, labels and qtotal but
+    independently chosen stored blocks (different block sparsity), mostly one dtype; then sums/differences/axpy with prefactors
+    in {1, -1, 2, 1j} whose results AND operands are afterwards scaled / added to IN PLACE (iscale_prefactor, *=, +=, -=,
+    iadd_prefactor_other).  A result that shares memory with an operand is visible here in three ways: the sharing relation
+    after the binary step, the set of tensors changed by the in-place step, and the final state of all registers."""
+    p = c04_gen.Prog(rng, empty_blocks=False, bad_rate=0.0, worker_rate=0.0)
+    rank = rng.choice([1, 2, 2, 2, 3, 3])
+    types = [['L', rng.randrange(len(p.pool)), rng.choice([1, -1])] for _ in range(rank)]
+    dtype = rng.choice(['float64', 'float64', 'complex128', 'complex128', 'float32', 'complex64', 'int64'])
+    labels = rng.sample(c04_gen.LABELS[:8], rank) if rng.random() < 0.8 else c04_gen.gen_labels(rng, rank)
+    a = p.new(types=types, labels=labels, dtype=dtype, fill=rng.choice([0.3, 0.5, 0.7, 1.0]))
+    qt = p.steps[a]['spec']['qtotal']
+    live = [a]
+    for _ in range(rng.choice([1, 2, 2, 3])):
+        dt = dtype if rng.random() < 0.8 else rng.choice(c04_gen.DTYPES)
+        live.append(p.new(like=a, qtotal=qt, dtype=dt, fill=rng.choice([0.3, 0.5, 0.7, 1.0, 1.0, 0.1])))
+    A = p.regs[a]
+
+    def binary():
+        x = rng.choice(live)
+        others = [r for r in live if r != x]
+        y = rng.choice(others)
+        op = rng.choice(['add', 'add', 'sub', 'iadd', 'iadd', 'isub', 'iadd_prefactor_other', 'iadd_prefactor_other'])
+        st = {'op': op, 'a': x, 'b': y}
+        if op == 'iadd_prefactor_other':
+            st['s'] = rng.choice(CHAIN_PREF)
+        if op in ('add', 'sub'):
+            live.append(p.push(st, p.arr(A['legs'], A['labels'])))
+        else:
+            p.push(st, {'kind': 'none'})
+
+    binary()
+    for _ in range(rng.randint(2, 6)):
+        r = rng.random()
+        if r < 0.4:
+            binary()
+        elif r < 0.85:
+            # in place on a result or an operand of an earlier binary operation (the most recent registers preferred)
+            x = live[-1] if rng.random() < 0.4 else rng.choice(live)
+            p.push({'op': rng.choice(['iscale', 'iscale_prefactor']), 'a': x, 's': rng.choice(CHAIN_SCALE)}, {'kind': 'none'})
+        elif r < 0.93:
+            x = rng.choice(live)
+            live.append(p.push({'op': rng.choice(['scale', 'copy_deep', 'rscale']), 'a': x, 's': rng.choice(CHAIN_SCALE)},
+                               p.arr(A['legs'], A['labels'])))
+        else:
+            x = rng.choice(live)
+            p.push({'op': 'imake_contiguous', 'a': x}, {'kind': 'none'})
+    return p.case()
 
 
 def gen_itrans_cases(rng, n):
@@ -529,7 +669,11 @@ def main(ctx):
         algos += [{'kind': 'dmrg', 'model': 'xxz', 'L': 6, 'Jz': 0.3, 'hz': 0.1, 'mixer': True},
                   {'kind': 'dmrg', 'model': 'xxz', 'L': 5, 'Jz': 2.0, 'conserve': 'parity'},
                   {'kind': 'tebd', 'model': 'xxz', 'L': 6, 'Jz': 1.5, 'steps': 6, 'order': 4, 'conserve': None}]
-    items = [('algos', c) for c in algos] + [('programs', c) for c in cases + f5 + zs] + [('kernels', c) for c in kcases]
+    # stream 3b: binary operations on operands of different block sparsity continued by in-place operations on results and operands
+    chains = [c['case'] for c in common.corpus_cases('C04') if c.get('stream') == 'inplace-chains']
+    chains += [gen_inplace_chain(rng) for _ in range(ctx.pick(250, 2000) * mult)]
+    items = ([('algos', c) for c in algos] + [('programs', c) for c in cases + f5 + zs + chains]
+             + [('kernels', c) for c in kcases])
     allout, infos = run_mixed(ctx, items, nchunks=ctx.pick(6, 12))
     mark('both-configurations')
     if allout is None:
@@ -546,6 +690,8 @@ def main(ctx):
     o += len(f5)
     ndiff += compare_programs(ctx, 'zero-size-blocks', zs, part(o, len(zs)))
     o += len(zs)
+    ndiff += compare_programs(ctx, 'inplace-chains', chains, part(o, len(chains)))
+    o += len(chains)
     outk = part(o, len(kcases))
     # if something unexplained differs, intensify: as many programs again
     if ctx.violations and not ctx.thorough():
@@ -590,6 +736,13 @@ def main(ctx):
                     key = 'C04:make_valid:py-mutates-int64-array-argument'
                 ctx.fail('oracle', 'helper %s differs between the configurations in %s: py %s, cy %s [%s]' % (f, d[:4], str(p)[:200], str(y)[:200], key),
                          {'stream': 'kernels', 'case': c, 'py': p, 'cy': y}, match_key=key)
+            if f == 'merge' and (p.get('shares_b') or y.get('shares_b') or not p.get('b_unchanged_after_scale', True)
+                                 or not y.get('b_unchanged_after_scale', True) or not p.get('b_unchanged', True) or not y.get('b_unchanged', True)):
+                ctx.fail('oracle', 'a.iadd_prefactor_other(1., b): the sum shares block memory with b / b is modified by the sum or by a later '
+                         'in-place scaling of the sum (py: shares %s, b intact %s/%s; cy: shares %s, b intact %s/%s)' % (
+                             p.get('shares_b'), p.get('b_unchanged'), p.get('b_unchanged_after_scale'),
+                             y.get('shares_b'), y.get('b_unchanged'), y.get('b_unchanged_after_scale')),
+                         {'stream': 'kernels', 'case': c, 'py': p, 'cy': y}, match_key='C04:iadd_prefactor_other:operand-aliased-or-modified')
             if f == 'sliced_copy' and not (p.get('ok') and y.get('ok') and p.get('src_unchanged') and y.get('src_unchanged')):
                 ctx.fail('oracle', '_sliced_copy differs from plain numpy slicing (py ok=%s, cy ok=%s)' % (p.get('ok'), y.get('ok')),
                          {'stream': 'kernels', 'case': c}, match_key='C04:_sliced_copy:wrong')
@@ -689,11 +842,13 @@ def main(ctx):
         'against both configurations: Model/KernelsPyCy3Check.v), the combine/split/tensordot/inner workers (compared differentially on '
         'identical programs only); memory layout (contiguity) is not part of the differential observation',
         'C04: effects of in-place writes through shallow copies are excluded from the differential (documented as unspecified by Array.copy; '
-        'they are the subject of C03)',
+        'they are the subject of C03); likewise the memory-sharing relation is diffed only for pairs of tensors that are NOT related by '
+        'a documented shallow copy (copy(deep=False), sort_legcharge)',
     ]
     return ctx.finish(RULE, 'identical serialised programs and helper calls are run in a pure-Python and a freshly rebuilt compiled '
                       'interpreter and every observable (legs incl. pipe tables, labels, qtotal, dtype, block set, values, error class) '
-                      'is diffed; the Coq models of both variants of make_valid/check_valid/_find_row_differences/_make_stride/_map_blocks, '
+                      'is diffed, and so are the relation "live tensors i, j share block memory" and the set of other live tensors changed by each step '
+                      '(hidden aliasing); the Coq models of both variants of make_valid/check_valid/_find_row_differences/_make_stride/_map_blocks, '
                       'LegPipe._init_from_legs, _sliced_copy, the merge of iadd_prefactor_other and itranspose are proved equal and each is '
                       'evaluated (vm_compute) against its configuration')
 
@@ -728,5 +883,7 @@ def replay(ctx):
 
 RULE = ('programs: random programs of 4-8 steps over tensors of rank 1-4 with 0-3 charges (mod 1..5), both qconj, unsorted/duplicated '
         'leg charges, missing and all-zero blocks, non-zero qtotal, dtypes float32/64 complex64/128 int64, small-integer entries; a '
-        'program is non-trivial when at least one non-constructor step executed; distinct = distinct serialised program.  kernels: '
+        'program is non-trivial when at least one non-constructor step executed; distinct = distinct serialised program.  inplace-chains: '
+        '2-4 operands with equal legs/labels/qtotal and independent block sparsity, sums/differences/axpy with prefactors 1,-1,2,1j, '
+        'then in-place scalings and additions on results and operands.  kernels: '
         'generated arguments of the helper functions (non-trivial always).  Each case is executed in BOTH configurations.')
